@@ -276,8 +276,14 @@ def precise_diff(
                 d_diff += d1.day
             else:
                 d_diff += days_in_last_month
-        elif d_diff == days_in_month - days_in_last_month:
-            # We have exactly a full month
+        elif (
+            d_diff == days_in_month - days_in_last_month
+            and d2.day == days_in_month
+            and d2.day - d1.day == d_diff
+        ):
+            # We have exactly a full month: the start day does not exist
+            # in the end month and the end is the last day of its month
+            # (e.g. Jan 31 -> Feb 28), with no day borrowed by the time part.
             # We remove the days difference
             # and add one to the months difference
             d_diff = 0
